@@ -557,6 +557,14 @@ class SDateTime(Sym):
                 microsecond=None, tzinfo=True, *, fold=None):
         if all(v is None for v in (year, month, day, hour, minute, second, microsecond)):
             return self._retz(self.tz if tzinfo is True else tzinfo, fold)
+        if self._f is None and all(v is None for v in (year, month, day, hour, minute, second)):
+            # only the microsecond changes: stay on the wall-clock representation
+            _check_int("microsecond", microsecond)
+            if not _rng(0, microsecond, 999999):
+                raise ValueError("microsecond must be in 0..999999")
+            w = self._w - self._w % 1000000 + microsecond
+            return SDateTime.from_wall(w, self.tz if tzinfo is True else tzinfo,
+                                       self.fold if fold is None else fold)
         return mk_datetime(
             self.y if year is None else year,
             self.m if month is None else month,
